@@ -37,7 +37,7 @@ def main():
     try:
         base = ctest(wt)
         demo = os.path.join(src, "demo.cpp")
-        extra = "-pthread"
+        extra = f"-I{wt}/include/m17cxx -I{wt}/apps -pthread -lcodec2 -lboost_program_options"
         rc0, o0 = sh(f"g++ -std=c++20 -I{wt}/include -I{wt} {demo} -o {wt}/_b/demo0 {extra} && {wt}/_b/demo0", timeout=900)
         meta["demo_without_patch_exit"] = rc0
         rc, out = sh(f"git -C {wt} apply {os.path.abspath(src)}/patch.diff")
